@@ -109,6 +109,9 @@ class Program:
         self._callers = None
         self._accessors = None
         self._summ_cache = {}
+        self.templates = {}
+        import inline
+        self.inline_record = inline.expand(self)
 
     # ---- constants ----------------------------------------------------------------------------
     def const_value(self, name):
